@@ -29,6 +29,9 @@ Definition the_tm (t : tms) : option tileMatrix := find_tm 0 (t_matrices t).
 Lemma decode_panics : decodeTMS doc_origin3 = Panic.
 Proof. vm_compute. reflexivity. Qed.
 
+Lemma decode_panics_ex : exists doc, decodeTMS doc = Panic.
+Proof. exists doc_origin3. exact decode_panics. Qed.
+
 Lemma short_origin_accepted : exists t m, decodeTMS doc_origin1 = Ok t /\ the_tm t = Some m /\ tm_origin m = Some (Dec 1 0, Dec 0 0).
 Proof. eexists. eexists. split; [vm_compute; reflexivity|]. split; vm_compute; reflexivity. Qed.
 
